@@ -125,8 +125,8 @@ static Resp parse_cgi(const std::string &b){ Resp r; size_t p=0; if(!parse_heade
 // FastCGI: reassemble STDOUT; checks framing
 struct FcgiOut { bool ok; std::string err,out,errstream; int end_requests; int app_status; int proto_status; size_t stdout_records; bool stdout_terminated; size_t consumed; size_t max_record; FcgiOut():ok(false),end_requests(0),app_status(-1),proto_status(-1),stdout_records(0),stdout_terminated(false),consumed(0),max_record(0){} };
 static FcgiOut parse_fcgi(const std::string &b,int id=1){ FcgiOut f; size_t p=0; while(p<b.size()){ if(b.size()-p<8){ f.err="truncated record header"; return f; } unsigned char ver=b[p],type=b[p+1]; int rid=((unsigned char)b[p+2]<<8)|(unsigned char)b[p+3]; size_t len=((unsigned char)b[p+4]<<8)|(unsigned char)b[p+5]; size_t pad=(unsigned char)b[p+6]; if(ver!=1){ f.err="record version != 1"; return f; } if(b.size()-p-8<len+pad){ f.err="truncated record body"; return f; } std::string c=b.substr(p+8,len); p+=8+len+pad;
-		if(type==6){ if(rid!=id){ f.err="STDOUT for another request id"; return f; } if(f.end_requests){ f.err="STDOUT after END_REQUEST"; return f; } if(f.stdout_terminated&&len){ f.err="STDOUT data after the empty terminator"; return f; } if(len==0) f.stdout_terminated=true; else { f.out+=c; f.stdout_records++; f.max_record=std::max(f.max_record,len); } }
-		else if(type==7){ f.errstream+=c; } else if(type==3){ if(rid!=id){ f.err="END_REQUEST for another request id"; return f; } f.end_requests++; if(len!=8){ f.err="END_REQUEST body != 8 bytes"; return f; } f.app_status=((unsigned char)c[0]<<24)|((unsigned char)c[1]<<16)|((unsigned char)c[2]<<8)|(unsigned char)c[3]; f.proto_status=(unsigned char)c[4]; f.consumed=p; f.ok=true; return f; }
+		if(type==6){ if(id>=0&&rid!=id){ f.err="STDOUT for another request id"; return f; } if(f.end_requests){ f.err="STDOUT after END_REQUEST"; return f; } if(f.stdout_terminated&&len){ f.err="STDOUT data after the empty terminator"; return f; } if(len==0) f.stdout_terminated=true; else { f.out+=c; f.stdout_records++; f.max_record=std::max(f.max_record,len); } }
+		else if(type==7){ f.errstream+=c; } else if(type==3){ if(id>=0&&rid!=id){ f.err="END_REQUEST for another request id"; return f; } f.end_requests++; if(len!=8){ f.err="END_REQUEST body != 8 bytes"; return f; } f.app_status=((unsigned char)c[0]<<24)|((unsigned char)c[1]<<16)|((unsigned char)c[2]<<8)|(unsigned char)c[3]; f.proto_status=(unsigned char)c[4]; f.consumed=p; f.ok=true; return f; }
 		else if(type==10||type==11){ /* management replies */ } else { f.err="unexpected record type "+std::to_string(type); return f; } }
 	f.err="no END_REQUEST"; f.consumed=p; return f; }
 static bool fcgi_complete(const std::string &b){ size_t p=0; while(b.size()-p>=8){ size_t len=((unsigned char)b[p+4]<<8)|(unsigned char)b[p+5]; size_t pad=(unsigned char)b[p+6]; if(b.size()-p-8<len+pad) return false; if((unsigned char)b[p+1]==3) return true; p+=8+len+pad; } return false; }
